@@ -3,7 +3,7 @@
     [Print Assumptions].  Models: Syncer/Model.v (BlockFetcher + BlockProcessor after the F16
     repair), Syncer/Finder.v, Syncer/Session.v. *)
 From Coq Require Import ZArith NArith List Bool.
-From Verif Require Import Syncer.Model Syncer.Proofs Syncer.Theorems Syncer.Finder Syncer.FinderProofs Syncer.Session.
+From Verif Require Import Syncer.Model Syncer.Proofs Syncer.Theorems Syncer.Progress Syncer.Idle Syncer.Finder Syncer.FinderProofs Syncer.Session.
 Import ListNotations.
 
 (** The invariant of the fetcher/processor loop is kept by every event (any response of any
@@ -49,6 +49,23 @@ Theorem C17_success_stop_only_for_target : forall c s e s' o,
              /\ e = EAddRsp (b_no cb) (Some (b_hash cb)) false.
 Proof. exact success_stop_only_for_target. Qed.
 Print Assumptions C17_success_stop_only_for_target.
+
+(** At most one successful stop in a session, and the progress measure (twice the height of
+    the last block handed over, +1 once acknowledged) never decreases. *)
+Theorem C17_success_at_most_once : forall L c np anc es s o,
+  Forall (ev_ok L) es -> run c (init_st np anc) es = (s, o) ->
+  (count_ok o <= 1)%nat /\ (phase (init_st np anc) <= phase s)%N.
+Proof. exact success_at_most_once. Qed.
+Print Assumptions C17_success_at_most_once.
+
+(** Whenever no block is being connected and the loop has not stopped, no chunk is
+    half-consumed and the head of the connect queue is not the next block: a fetched next
+    chunk is always taken up at once (support for "stops or completes"; liveness of the
+    goroutines is outside the model). *)
+Theorem C17_never_sits_on_next_chunk_partial : forall L c np anc es s o,
+  Forall (ev_ok L) es -> run c (init_st np anc) es = (s, o) -> idle_ok s.
+Proof. exact never_sits_on_next_chunk. Qed.
+Print Assumptions C17_never_sits_on_next_chunk_partial.
 
 (** ... every error is reported together with leaving the loop, after which nothing more
     is sent. *)
